@@ -27,6 +27,9 @@ partial def mkAnn (j : Json) : Ann :=
     | none =>
     match obj? j "union" with
     | some as => .union ((arr! as).map mkAnn)
+    | none =>
+    match obj? j "con" with
+    | some c => (match arr! c with | [k, a] => .con (nat! k) (mkAnn a) | _ => .int)
     | none => .int
 
 def mkFieldAnn (j : Json) : FieldAnn :=
@@ -60,7 +63,7 @@ def mkOp (j : Json) : Op :=
       | [f, fa] => (nat! f, mkFieldAnn fa) | _ => (0, .plain .int)
     .defn (nat! (fld j "def")) { fields := fields, isLocal := bool! (fld j "local"),
                                  bound := bool! (fld j "bound"), isFunc := bool! (fld j "func"),
-                                 bases := (arr! (fld j "bases")).map nat! }
+                                 bases := (arr! (fld j "bases")).map nat!, rule := optNat (fld j "rule") }
 
 partial def outVal : Val → Json
   | .none => .null
@@ -85,14 +88,33 @@ def leafInt : Val → Option Val
   | .none => some (.int 0)
   | _ => none
 
+def lenOf : Val → Option Nat
+  | .list xs => some xs.length
+  | .tup xs => some xs.length
+  | .dict kvs => some kvs.length
+  | _ => none
+
+/-- the constraints of the correspondence run: id = kind * 1000 + bound,
+kinds 0 le, 1 ge, 2 gt, 3 lt (on ints), 4 max_length, 5 min_length (on containers) -/
+def chkCon (c : Nat) (v : Val) : Bool :=
+  let b := c % 1000
+  match c / 1000, v with
+  | 0, .int i => i ≤ b
+  | 1, .int i => i ≥ b
+  | 2, .int i => i > b
+  | 3, .int i => i < b
+  | 4, v => (match lenOf v with | some n => n ≤ b | none => false)
+  | 5, v => (match lenOf v with | some n => n ≥ b | none => false)
+  | _, _ => false
+
 def handle (j : Json) : Json :=
   let cfg : Cfg := match obj? j "cfg" with
     | some c => ⟨bool! (fld c "uniqueKeys"), bool! (fld c "resolveUnion"), bool! (fld c "inheritRefs")⟩
     | none => Cfg.fixed
   let fuel := match optNat (fld j "fuel") with | some n => n | none => 60
   let ops := (arr! (fld j "ops")).map mkOp
-  let m := run cfg leafInt fuel State.init ops
-  let sp := specRun leafInt fuel [] ops
+  let m := run cfg leafInt chkCon fuel State.init ops
+  let sp := specRun leafInt chkCon fuel [] ops
   Json.mkObj [("model", Json.arr (m.map outO).toArray), ("spec", Json.arr (sp.map outO).toArray)]
 
 def main : IO Unit := serve handle
